@@ -404,7 +404,125 @@ func c12Eval(c *runCtx, names, labels, titles []string) {
 			queries = append(queries, s)
 			outs = append(outs, map[string]any{"ids": idStrs(res)})
 			c.count(fmt.Sprintf("eval-hits=%d", min(len(res)/5*5, 30)))
-			// oracle: each once, and a subset of the population
+			// oracle: exactly the bugs that satisfy the query as documented (naive evaluation)
+			wantSet := map[entity.Id]bool{}
+			for _, bid := range ids {
+				ex, _ := rc.Bugs().ResolveExcerpt(bid)
+				identOK := func(iid entity.Id, v string) bool {
+					ie, err := rc.Identities().ResolveExcerpt(iid)
+					if err != nil {
+						return false
+					}
+					lv := strings.ToLower(v)
+					return strings.HasPrefix(string(iid), lv) || strings.Contains(strings.ToLower(ie.Name), lv) || strings.Contains(strings.ToLower(ie.Login), lv)
+				}
+				anyOf := func(vals []string, f func(string) bool) bool {
+					if len(vals) == 0 {
+						return true
+					}
+					for _, v := range vals {
+						if f(v) {
+							return true
+						}
+					}
+					return false
+				}
+				ok := true
+				if len(q.Status) > 0 {
+					m := false
+					for _, st := range q.Status {
+						m = m || st == ex.Status
+					}
+					ok = ok && m
+				}
+				ok = ok && anyOf(q.Author, func(v string) bool { return identOK(ex.AuthorId, v) })
+				ok = ok && anyOf(q.Actor, func(v string) bool {
+					for _, a := range ex.Actors {
+						if identOK(a, v) {
+							return true
+						}
+					}
+					return false
+				})
+				ok = ok && anyOf(q.Participant, func(v string) bool {
+					for _, a := range ex.Participants {
+						if identOK(a, v) {
+							return true
+						}
+					}
+					return false
+				})
+				if len(q.Metadata) > 0 {
+					m := false
+					for _, p := range q.Metadata {
+						if v, has := ex.CreateMetadata[p.Key]; has && v == p.Value {
+							m = true
+						}
+					}
+					ok = ok && m
+				}
+				for _, l := range q.Label {
+					has := false
+					for _, el := range ex.Labels {
+						has = has || string(el) == l
+					}
+					ok = ok && has
+				}
+				for _, t := range q.Title {
+					ok = ok && strings.Contains(strings.ToLower(ex.Title), strings.ToLower(t))
+				}
+				if q.NoLabel {
+					ok = ok && len(ex.Labels) == 0
+				}
+				if ok {
+					wantSet[bid] = true
+				}
+			}
+			gotSet := map[entity.Id]bool{}
+			for _, id := range res {
+				gotSet[id] = true
+			}
+			for id := range wantSet {
+				if !gotSet[id] {
+					c.violation(c.nCases, "C12/missing-match", fmt.Sprintf("query %q does not return bug %s which satisfies it", s, id.Human()), nil)
+					break
+				}
+			}
+			for id := range gotSet {
+				if !wantSet[id] {
+					c.violation(c.nCases, "C12/false-match", fmt.Sprintf("query %q returns bug %s which does not satisfy it", s, id.Human()), nil)
+					break
+				}
+			}
+			// sorted by the requested key and direction
+			for k2 := 1; k2 < len(res); k2++ {
+				a, _ := rc.Bugs().ResolveExcerpt(res[k2-1])
+				b, _ := rc.Bugs().ResolveExcerpt(res[k2])
+				var inOrder bool
+				switch q.OrderBy {
+				case query.OrderById:
+					inOrder = a.Id() <= b.Id()
+				case query.OrderByCreation:
+					inOrder = a.CreateLamportTime <= b.CreateLamportTime
+				default:
+					inOrder = a.EditLamportTime <= b.EditLamportTime
+				}
+				if q.OrderDirection == query.OrderDescending {
+					switch q.OrderBy {
+					case query.OrderById:
+						inOrder = a.Id() >= b.Id()
+					case query.OrderByCreation:
+						inOrder = a.CreateLamportTime >= b.CreateLamportTime
+					default:
+						inOrder = a.EditLamportTime >= b.EditLamportTime
+					}
+				}
+				if !inOrder {
+					c.violation(c.nCases, "C12/unsorted", fmt.Sprintf("result of %q is not sorted by the requested key and direction", s), nil)
+					break
+				}
+			}
+			// each once
 			seen := map[entity.Id]bool{}
 			for _, id := range res {
 				if seen[id] {
